@@ -301,8 +301,11 @@ static int storeMode(const char* file) {
 		if (f.size() && f[0] == "R") reads.assign(f.begin() + 1, f.end());
 		else if (f.size() && f[0] == "P") progs.push_back(f);
 	}
-	size_t from = 0;
+	size_t from = 0, crashes = 0;
 	while (from < progs.size()) {
+		// a tree on which every program hangs would cost 4 s per program: twelve crashed or hung programs are
+		// reported, the rest is reported as not run (STOP)
+		if (crashes >= 12) { printf("STOP %zu\n", from); break; }
 		size_t to = std::min(progs.size(), from + 100);
 		int pfd[2];
 		if (pipe(pfd)) return 2;
@@ -326,6 +329,7 @@ static int storeMode(const char* file) {
 		if (WIFSIGNALED(status) || (WIFEXITED(status) && WEXITSTATUS(status) != 0)) {
 			printf("C %zu %d\n", last, WIFSIGNALED(status) ? WTERMSIG(status) : -WEXITSTATUS(status));
 			from = last + 1;
+			crashes++;
 		} else {
 			from = to;
 		}
